@@ -11,6 +11,7 @@ def run(res):
     c, ov = dc.consts(H=3, subs='Subs_Fixed', beh='Beh_C03_H1', maxq=1, maxeid=2, clear=False)
     dc.check_and_replay(res, 'c03_h3', c, ov, depth_all=0, walks=2000)
     dc.trace_validate(res, 1000 if thorough else 100, 50)
+    dc.repo_tests_validate(res)
     # class-hierarchy clause: event_handler composes inherited mappings without altering the bases
     from .eventdeco import run_deco
     run_deco(res)
